@@ -29,8 +29,8 @@ ASSUMPTIONS = [
 FACETS = ('compile-failed', 'syntax', 'type', 'default')
 
 
-def _profile():
-    return setcheck.profile_for(None, backends=('json', 'pysnmp'), dialects=('v2', 'v2', 'v2', 'v1'),
+def _profile(backends=('json', 'pysnmp')):
+    return setcheck.profile_for(None, backends=backends, dialects=('v2', 'v2', 'v2', 'v1'),
                                 modules=(1, 3), decls=(3, 14), texts='short', skipblocks=False,
                                 kinds=('scalar', 'scalar', 'type', 'type', 'table', 'value'))
 
@@ -38,6 +38,12 @@ def _profile():
 @st.composite
 def cases(draw):
     return {'mset': draw(mibgen.module_sets(_profile()))}
+
+
+@st.composite
+def json_cases(draw):
+    # JSON-only routes: the classes excluded for open findings of the pysnmp backend are generated here
+    return {'mset': draw(mibgen.module_sets(_profile(('json',))))}
 
 
 def _nontrivial(mset):
@@ -124,8 +130,8 @@ def compile_prop(case, rec):
 def run(ctx):
     probes(ctx)
     ctx.search('both', cases, prop, ctx.pick(2400, 50000))
-    ctx.search('json', cases, json_prop, ctx.pick(1600, 50000))
-    ctx.search('compile', cases, compile_prop, ctx.pick(1200, 30000))
+    ctx.search('json', json_cases, json_prop, ctx.pick(1600, 50000))
+    ctx.search('compile', json_cases, compile_prop, ctx.pick(1200, 30000))
 
 
 def replay(ctx, data):
